@@ -39,6 +39,7 @@ class C04(Prop):
     id = 'C04'
     k2_mask = {('server', 'id'), ('server', 'cust'), ('server', 'busy'), ('server', 'busy_time'), ('server', 'total_time'), ('server', '*'), ('ind', 'server'), ('ind', 'sst'), ('rec', 'server')}      # the slice of the engine state / records this property reads (DESIGN 7, table of slices)
     k2_frames = 40
+    k2_invs = {'srv'}          # the T2 invariants (Inv/AllRun.invs_b) this property answers for on real snapshots
     num = 4
     regions = {'quick': [('core', 100), ('block', 140), ('routers', 40), ('renege', 40), ('sched', 60), ('sched_block', 60),
                          ('preempt', 50), ('schedpre', 40), ('dyn', 30), ('all', 40), ('spf', 30), ('spf_sched', 50), ('spf_block', 30), ('sched_split', 70), ('core_split', 30), ('schedpre_block', 120)]}
